@@ -79,3 +79,45 @@ pub fn run_left_strip(sc: &Value) -> Value {
         Ok(map) => { let v = serde_json::to_value(&map).unwrap(); let k: Vec<String> = v.as_object().unwrap().keys().cloned().collect(); json!({"outcome": format!("str:{}", k.join(","))}) }
     }
 }
+
+/// C18: in_toto_run on a real temporary directory; the command rewrites / deletes / creates files and (keep_mtime) restores
+/// the modification time each surviving file had before
+pub fn run_fs(sc: &Value) -> Value {
+    use in_toto::runlib::in_toto_run;
+    let root = std::env::temp_dir().join(format!("verif-runfs-{}-{}", std::process::id(), chrono::Utc::now().timestamp_nanos_opt().unwrap_or(0)));
+    std::fs::create_dir_all(&root).unwrap();
+    let bytes_of = |c: &Value| -> Vec<u8> { c.as_array().unwrap().iter().map(|x| x.as_u64().unwrap() as u8).collect() };
+    let oct = |b: &[u8]| -> String { b.iter().map(|x| format!("\\{:03o}", x)).collect() };
+    let pre: Vec<(String, Vec<u8>)> = sc["pre"].as_object().unwrap().iter().map(|(p, c)| (p.clone(), bytes_of(c))).collect();
+    let post: Vec<(String, Vec<u8>)> = sc["post"].as_object().unwrap().iter().map(|(p, c)| (p.clone(), bytes_of(c))).collect();
+    for (p, c) in &pre { let full = root.join(p); std::fs::create_dir_all(full.parent().unwrap()).unwrap(); std::fs::write(&full, c).unwrap(); }
+    // the command: a shell script that brings the tree from `pre` to `post`
+    let mut script = String::new();
+    for (p, c) in &post {
+        let before = pre.iter().find(|(q, _)| q == p);
+        if before.map(|(_, b)| b == c).unwrap_or(false) { continue; }
+        if before.is_some() && sc["keep_mtime"] == true { script.push_str(&format!("touch -r '{}' .stamp; ", p)); }
+        script.push_str(&format!("printf '{}' > '{}'; ", oct(c), p));
+        if before.is_some() && sc["keep_mtime"] == true { script.push_str(&format!("touch -r .stamp '{}'; rm -f .stamp; ", p)); }
+    }
+    for (p, _) in &pre { if !post.iter().any(|(q, _)| q == p) { script.push_str(&format!("rm -f '{}'; ", p)); } }
+    if script.is_empty() { script.push_str("true"); }
+    let old = std::env::current_dir().ok();
+    std::env::set_current_dir(&root).unwrap();
+    let r = in_toto_run("step", None, &["d"], &["d"], &["sh", "-c", &script], None, None, None);
+    if let Some(o) = old { let _ = std::env::set_current_dir(o); }
+    let out = match r {
+        Err(e) => json!({"outcome": "err", "error": e.to_string()}),
+        Ok(mb) => {
+            let v = serde_json::to_value(&mb).unwrap();
+            let sha = |c: &[u8]| -> String { digest::digest(&digest::SHA256, c).as_ref().iter().map(|b| format!("{:02x}", b)).collect() };
+            let agrees = |field: &str, want: &Vec<(String, Vec<u8>)>| -> bool {
+                let got = v["signed"][field].as_object().cloned().unwrap_or_default();
+                got.len() == want.len() && want.iter().all(|(p, c)| got.get(p).and_then(|d| d.get("sha256")).and_then(|x| x.as_str()) == Some(sha(c).as_str()))
+            };
+            json!({"outcome": "ok", "materials_ok": agrees("materials", &pre), "products_ok": agrees("products", &post), "script": script})
+        }
+    };
+    let _ = std::fs::remove_dir_all(&root);
+    out
+}
